@@ -54,6 +54,9 @@ class Case:
                 self.keyname[K_POS + i] = a
         else:
             self.pos_keys = [K_POS]
+        # features renamed through `tracks.annotators.change_key(old, new)` before they are enabled
+        for k, new in (spec.get("rename") or {}).items():
+            self.keyname[int(k)] = new
         self.namekey = {v: k for k, v in self.keyname.items()}
 
     # ---- real object ----------------------------------------------------------------------
@@ -105,6 +108,9 @@ class Case:
         if not sp.get("w_unregistered"):
             tracks.features["w"] = {"feature_type": "edge", "value_type": "int", "num_values": 1,
                                     "required": False, "default_value": None}
+        for k, new in (sp.get("rename") or {}).items():
+            if NAME[int(k)] not in tracks.annotators.features:
+                tracks.annotators.change_key(NAME[int(k)], new)
         extra = [self.keyname[k] for k in sp.get("enable", [])]
         if extra:
             tracks.enable_features(extra)
@@ -243,7 +249,7 @@ class Case:
         from funtracks.annotators import EdgeAnnotator
         for a in tracks.annotators:
             if isinstance(a, EdgeAnnotator):
-                return "iou" in a.features
+                return self.keyname[K_IOU] in a.features
         return False
 
     def pixels_of(self, tracks, node) -> list[int]:
